@@ -463,14 +463,14 @@ class Check:
 
 def validate_trace(spec_dir, base, consts, trace_path, *, invariants=(), spec="TraceSpec",
                    constraint="HighWater", postcondition="TraceAccepted", timeout=600,
-                   depth_first=True, defs="", properties=()):
+                   depth_first=True, defs="", properties=(), heap=None):
     """Validate an ndjson trace with <base> (a *Trace module reading "trace.ndjson").
     Returns dict(accepted, reject_at (1-based line index of first unmatched line or None),
     states, result)."""
     r = tlc(spec_dir, base, consts, spec=spec, invariants=invariants, constraint=constraint,
             postcondition=postcondition, workers=1, timeout=timeout, depth_first=depth_first,
             extra_files={"trace.ndjson": trace_path}, defs=defs, properties=properties,
-            want_cases=False)
+            want_cases=False, heap=heap)
     rej = None
     for p in r.prints:
         m = re.match(r'^<<"REJECT", (\d+)>>', p)
